@@ -130,7 +130,7 @@ func (s *Service) AttestationData(ctx context.Context,
 	log.Trace().
 		Dur("elapsed", time.Since(started)).
 		Stringer("attestation_data", &bestAttestationData).
-		Int64("head_distance", util.SlotToInt64(bestAttestationData.Slot)-util.SlotToInt64(slot)).
+		Int64("head_distance", int64(bestAttestationData.Slot)-int64(slot)).
 		Int("count", bestAttestationDataCount).
 		Msg("Selected majority attestation data")
 	for _, provider := range attestationDataProviders[bestAttestationDataRoot] {
